@@ -3,6 +3,7 @@ package c18
 
 import (
 	"fmt"
+	"runtime"
 	"testing"
 
 	"pgregory.net/rapid"
@@ -34,7 +35,14 @@ var (
 type prep func(c *Case) func()
 
 var single = map[string]map[string]prep{} // op -> T -> prep
-var pair = map[string]map[string]prep{}   // op -> "U/T" -> prep (U slice type, T buffer type)
+
+// firstCall: operations whose very first call on a freshly prepared object is measured (a warm-up
+// call, as testing.AllocsPerRun makes, would absorb a one-time allocation). The prep returns the
+// number of calls and a function making them, each on an object of its own.
+type firstPrep func(*Case) (int, func())
+
+var firstCall = map[string]map[string]firstPrep{}
+var pair = map[string]map[string]prep{} // op -> "U/T" -> prep (U slice type, T buffer type)
 
 func mkBuf[T signal.SignalTypes](c *Case) *signal.Buffer[T] {
 	if c.Window {
@@ -49,6 +57,44 @@ func regSingle[T signal.SignalTypes](name string) {
 			single[op] = map[string]prep{}
 		}
 		single[op][name] = p
+	}
+	if firstCall["appendSampleOnFullGrownBuffer"] == nil {
+		firstCall["appendSampleOnFullGrownBuffer"] = map[string]firstPrep{}
+	}
+	firstCall["appendSampleOnFullGrownBuffer"][name] = func(c *Case) (int, func()) {
+		// buffers that a growing Append left with a partial last frame (so their capacity need not
+		// be a whole number of frames), filled to exactly their storage capacity: one more
+		// AppendSample is a no-op and must not allocate
+		const n = 32
+		var bufs []*signal.Buffer[T]
+		for i := 0; i < n; i++ {
+			b := signal.Alloc[T](signal.Allocator{Channels: c.C, Length: 0, Capacity: 1})
+			b.AppendSample(1)
+			src := signal.Alloc[T](signal.Allocator{Channels: c.C, Length: 0, Capacity: 3 + c.F%5})
+			for k := 0; k < c.C*2+c.F%(c.C*2+1); k++ {
+				src.AppendSample(2)
+			}
+			b.Append(src)
+			for {
+				l, cp, ok := kit.RawLenCap(b)
+				if !ok {
+					return 0, nil
+				}
+				if l >= cp {
+					break
+				}
+				b.AppendSample(3)
+				if l2, _, _ := kit.RawLenCap(b); l2 == l {
+					break // refuses although the storage has room: not this operation's concern
+				}
+			}
+			bufs = append(bufs, b)
+		}
+		return n, func() {
+			for _, b := range bufs {
+				b.AppendSample(4)
+			}
+		}
 	}
 	put("sampleGetSet", func(c *Case) func() {
 		b := mkBuf[T](c)
@@ -289,6 +335,7 @@ func init() {
 }
 
 var SingleOps = []string{"sampleGetSet", "appendSampleBelowCapacity", "appendSampleAtCapacity", "appendWithinCapacity", "appendWithinCapacityPartialFrames", "appendSiblingWindowWithinCapacity", "appendSelfWithinCapacity", "channelViewGetSet", "poolCycle", "poolCycleAcrossCopies", "sliceEscaping", "sliceLocal"}
+var FirstCallOps = []string{"appendSampleOnFullGrownBuffer"}
 var PairOps = []string{"write", "read", "writeStriped", "readStriped", "poolCyclesTwoTypes"}
 
 func Check(c *Case) (res kit.Result) {
@@ -319,6 +366,34 @@ func Check(c *Case) (res kit.Result) {
 			return
 		}
 		op = p(c)
+	case firstCall[c.Op] != nil:
+		p := firstCall[c.Op][c.T]
+		if p == nil || c.C < 2 {
+			return
+		}
+		best, calls := ^uint64(0), 0
+		for try := 0; try < 3; try++ {
+			n, run := p(c)
+			if run == nil {
+				return
+			}
+			var m1, m2 runtime.MemStats
+			runtime.ReadMemStats(&m1)
+			run()
+			runtime.ReadMemStats(&m2)
+			if d := m2.Mallocs - m1.Mallocs; d < best {
+				best = d
+			}
+			calls = n
+		}
+		// an allocation per call shows as at least `calls` objects in every one of the three attempts;
+		// a stray allocation of the runtime's own does not
+		if best >= uint64(calls)/2 {
+			res.Failf("%s[%s] with %d channels (shape parameter %d): %d heap allocations during %d first calls on freshly prepared buffers, want 0", c.Op, c.T, c.C, c.F, best, calls)
+			return
+		}
+		res.Class(c.Op)
+		return
 	default:
 		return
 	}
@@ -367,7 +442,7 @@ func Gen(t *rapid.T) *Case {
 		e := convtab.Entries[rapid.IntRange(0, len(convtab.Entries)-1).Draw(t, "inst")]
 		c.Op, c.T, c.U = "conv", e.S.Name, e.D.Name
 	case 1:
-		c.Op = rapid.SampledFrom(SingleOps).Draw(t, "op")
+		c.Op = rapid.SampledFrom(append(append([]string{}, SingleOps...), FirstCallOps...)).Draw(t, "op")
 		c.T = rapid.SampledFrom(names).Draw(t, "t")
 	default:
 		c.Op = rapid.SampledFrom(PairOps).Draw(t, "op")
